@@ -514,7 +514,48 @@ def fn_ranges(toks):
                 if d == 0:
                     break
             k += 1
-        out.append((i, min(k, len(toks) - 1)))
+        out.append((i, min(k, len(toks) - 1), j))
+    return out
+
+
+def param_names(toks, fn_idx):
+    """[(name, type tokens)] of the parameters of the fn item at token fn_idx (self parameters skipped)"""
+    j = fn_idx + 1
+    while j < len(toks) and toks[j][2] != '(':
+        if toks[j][2] in '{;':
+            return []
+        j += 1
+    depth = 0
+    cur = []
+    params = []
+    k = j
+    while k < len(toks):
+        t = toks[k][2]
+        if t in '([<':
+            depth += 1
+            if depth > 1:
+                cur.append(t)
+        elif t in ')]>' and not (t == '>' and k > 0 and toks[k - 1][2] == '-'):
+            depth -= 1
+            if depth == 0:
+                if cur:
+                    params.append(cur)
+                break
+            cur.append(t)
+        elif t == ',' and depth == 1:
+            params.append(cur)
+            cur = []
+        else:
+            cur.append(t)
+        k += 1
+    out = []
+    for p_ in params:
+        if ':' not in p_:
+            continue
+        c = p_.index(':')
+        nm = [x for x in p_[:c] if x not in ('mut', '&', 'ref')]
+        if len(nm) == 1 and IDENT_RE.match(nm[0]) and nm[0] != 'self':
+            out.append((nm[0], tuple(p_[c + 1:])))
     return out
 
 
@@ -542,7 +583,7 @@ def local_renames(btoks, ctoks, M):
         if not encl:
             continue
         r = max(encl, key=lambda r: r[1] - r[0])    # the outermost fn item (closures and nested fns share its locals' names)
-        cand.setdefault(r, []).append((k, o, n))
+        cand.setdefault(r[:2], []).append((k, o, n))
     for r, lst in cand.items():
         mp = {}
         bad = set()
@@ -553,12 +594,17 @@ def local_renames(btoks, ctoks, M):
         c_hi = next((M[x] for x in range(r[1], r[0] - 1, -1) if M[x] is not None), None)
         if c_lo is None or c_hi is None:
             continue
-        cwords = set(t[2] for t in ctoks[c_lo:c_hi + 1])
-        bwords = set(t[2] for t in btoks[r[0]:r[1] + 1])
+        # occurrences as a variable (not `.field`, not `path::segment`)
+        def var_words(toks, lo, hi):
+            return [toks[x][2] for x in range(lo, hi + 1) if not (x > 0 and toks[x - 1][2] in ('.', '::'))]
+        cwords = set(var_words(ctoks, c_lo, c_hi))
+        bl_ = var_words(btoks, r[0], r[1])
+        bwords = set(bl_)
         ok = {}
         for o, n in mp.items():
             if o in bad or o in cwords or n in bwords:
                 continue
+
             if len(set(mp.values())) != len(mp):
                 continue
             ok[o] = n
@@ -570,9 +616,28 @@ def local_renames(btoks, ctoks, M):
     return res
 
 
+def param_renames(btoks, ctoks, M):
+    """{(b fn idx, b body-open idx): {old param: new param}} for functions whose parameter list kept its types and arity"""
+    res = {}
+    for r in fn_ranges(btoks):
+        if M[r[0]] is None:
+            continue
+        bp = param_names(btoks, r[0])
+        cp = param_names(ctoks, M[r[0]])
+        if len(bp) != len(cp) or not bp:
+            continue
+        if any(a[1] != b[1] for a, b in zip(bp, cp)):
+            continue
+        mp = {a[0]: b[0] for a, b in zip(bp, cp) if a[0] != b[0]}
+        if mp:
+            res[(r[0], r[2], r[1])] = mp
+    return res
+
+
 def apply_renames(text, mp):
     for o, n in mp.items():
-        text = re.sub(r'(?<![A-Za-z0-9_.])(?<!::)' + re.escape(o) + r'(?![A-Za-z0-9_])(?!\s*::)', n, text)
+        # not a `.field`, a `path::segment`, or a struct-literal field label `name: value`
+        text = re.sub(r'(?<![A-Za-z0-9_.])(?<!::)' + re.escape(o) + r'(?![A-Za-z0-9_])(?!\s*::)(?!\s*:(?!:))', n, text)
     return text
 
 
@@ -598,6 +663,11 @@ def merge(a_text, c_text, modname):
         M = token_map(btoks, b_text, ctoks, c_text)
     renames = {} if same else local_renames(btoks, ctoks, M)
     ren_by_char = [((btoks[r[0]][0], btoks[r[1]][1]), mp) for r, mp in renames.items()]
+    prenames = {} if same else param_renames(btoks, ctoks, M)
+    # a renamed parameter: the contract in the signature follows the parameter; inside the body the local renaming (if
+    # any) wins, else the parameter renaming applies there too
+    pren_sig = [((btoks[r[0]][0], btoks[r[1]][0]), mp) for r, mp in prenames.items()]
+    pren_body = [((btoks[r[1]][0], btoks[r[2]][1]), mp) for r, mp in prenames.items()]
     ends = [e for _, e, _ in btoks]
     import bisect
     placed = {}   # c token index (insert before) -> [(offset within the trivia, text)]
@@ -609,9 +679,20 @@ def merge(a_text, c_text, modname):
         hi = toks[j][0] if j < len(toks) else len(text)
         return text[lo:hi]
     for off, text in ins:
-        for (lo_, hi_), mp_ in ren_by_char:
+        in_sig = False
+        for (lo_, hi_), mp_ in pren_sig:
             if lo_ <= off <= hi_:
                 text = apply_renames(text, mp_)
+                in_sig = True
+        if not in_sig:
+            done = set()
+            for (lo_, hi_), mp_ in ren_by_char:
+                if lo_ <= off <= hi_:
+                    text = apply_renames(text, mp_)
+                    done.update(mp_)
+            for (lo_, hi_), mp_ in pren_body:
+                if lo_ <= off <= hi_:
+                    text = apply_renames(text, {o: n for o, n in mp_.items() if o not in done})
         k = bisect.bisect_right(ends, off)       # number of B tokens that end at or before off
         rel = off - (ends[k - 1] if k > 0 else 0)
         j = None
@@ -654,6 +735,7 @@ def merge(a_text, c_text, modname):
     out.append(c_text[pos:])
     return ''.join(out), {'insertions': len(ins), 'displaced': displaced, 'base_matches_current': same, 'lost': lost,
                           'renamed_locals': sorted('%s->%s' % (o, n) for mp in renames.values() for o, n in mp.items()),
+                          'renamed_params': sorted('%s->%s' % (o, n) for mp in prenames.values() for o, n in mp.items()),
                           'lost_in': lost_functions(b_text, btoks, lost)}
 
 
@@ -808,7 +890,7 @@ def fn_occurrences(g, name):
     return occ
 
 
-def degrade_fn(g, name, ordinal):
+def degrade_fn(g, name, ordinal, level=1):
     """Give up on the BODY of one real function for this run: its body ghost text is dropped and the function is marked
     external_body, so that Verus neither type-checks nor verifies the body; its contract (signature insertions) stays and
     is ASSUMED for this run.  Used when the current body cannot be processed (ghost text naming a local that no longer
@@ -841,7 +923,12 @@ def degrade_fn(g, name, ordinal):
     inner = re.sub(re.escape(GOPEN) + r'.*?' + re.escape(GCLOSE), '', g[body:end + 1], flags=re.S)
     # the attribute goes in front of the item (before `pub`, other attributes stay where they are)
     ls = g.rfind('\n', 0, start) + 1
-    return g[:ls] + GOPEN + '#[verifier::external_body] /*degraded*/ ' + GCLOSE + g[ls:body] + inner + g[end + 1:]
+    sig = g[ls:body]
+    if level >= 2:
+        # level 2: the contract itself no longer fits the signature (a renamed parameter): drop it too.  The function then
+        # has NO contract for this run (a trait method keeps the trait's); callers that need one fail and are reported undecided.
+        sig = re.sub(re.escape(GOPEN) + r'.*?' + re.escape(GCLOSE), '', sig, flags=re.S)
+    return g[:ls] + GOPEN + '#[verifier::external_body] /*degraded*/ ' + GCLOSE + sig + inner + g[end + 1:]
 
 
 HEADER = '''#![allow(unused_imports, dead_code, unused_macros, unreachable_patterns, unused_variables, unused_mut, non_camel_case_types, unused_parens, unused_braces, unused_attributes)]
@@ -881,17 +968,21 @@ def generate(repo=REPO, contracts_dir=None, with_contracts=True, degrade=()):
             info['inputs']['contracts/%s.rs' % m] = sha(a)
             g, mi = merge(a, c, m)
             info['merge'][m] = mi
+            info.setdefault('base_fns', {})[m] = sorted(set(re.findall(r'\bfn\s+([A-Za-z0-9_]+)', split_sidecar(a)[0])))
+            info.setdefault('base_text', {})[m] = split_sidecar(a)[0]
         else:
             g = c
         g = add_auto(g, registries)
-        for dm, dn, do in sorted(degrade, key=lambda x: (x[0], x[1], -x[2])):
+        for dg in sorted(degrade, key=lambda x: (x[0], x[1], -x[2])):
+            dm, dn, do = dg[:3]
+            lvl = dg[3] if len(dg) > 3 else 1
             if dm == m:
-                g2 = degrade_fn(g, dn, do)
+                g2 = degrade_fn(g, dn, do, lvl)
                 if g2 is not None:
                     g = g2
-                    info.setdefault('degraded', []).append('%s::%s#%d' % (dm, dn, do))
+                    info.setdefault('degraded', []).append('%s::%s#%d%s' % (dm, dn, do, '(no contract)' if lvl >= 2 else ''))
         if with_contracts:
-            g, made = necessity_copies(m, g, skip=set(dn for dm, dn, do in degrade if dm == m))
+            g, made = necessity_copies(m, g, skip=set(dg[1] for dg in degrade if dg[0] == m))
             info.setdefault('necessity', []).extend(made)
         if strip_generated(g) != strip_generated(c):
             raise ExtractError('self-check failed: stripping the insertions from module %s does not give back the rewritten source' % m)
